@@ -27,9 +27,9 @@ Fixpoint udel {A} (k : Z) (l : list (Z * A)) : list (Z * A) :=
 
 (* the period gate of EndBlocker (uint64 arithmetic).  [gate_exact] says which variant the tree has
    (decided by a probe in the harness): [false] = `now > last+period` with the sum wrapping around,
-   [true] = the repaired `now >= last && now-last > period`. *)
+   [true] = the repaired `now > last && now-last > period` (commit 05a7d1b). *)
 Definition ubi_due_gen (gate_exact : bool) (now : Z) (r : urec) : bool :=
-  (if gate_exact then (u_last r <=? now) && (u_period r <? now - u_last r)
+  (if gate_exact then (u_last r <? now) && (u_period r <? now - u_last r)
    else wrap64 (u_last r + u_period r) <? now)
   && ((u_end r =? 0) || (u_last r <? u_end r)).
 Definition ubi_due_wrap := ubi_due_gen false.
@@ -40,8 +40,11 @@ Definition ubi_due_exact (now : Z) (r : urec) : bool :=
 Section Gate.
 Variable gate_exact : bool.
 Definition ubi_due := ubi_due_gen gate_exact.
+(* [bigint] (probe; commit b963c04): the payout amount and the hard-cap sum are computed in sdk.Int
+   (no int64 cast, no uint64 wrap-around) and a zero period is refused by the upsert proposal *)
+Variable bigint : bool.
 
-Definition ubi_amount (r : urec) : Z := as_int64 (u_amount r) * 1000000.
+Definition ubi_amount (r : urec) : Z := (if bigint then u_amount r else as_int64 (u_amount r)) * 1000000.
 Definition touch (now : Z) (r : urec) : urec :=
   mkU (u_start r) (u_end r) now (u_amount r) (u_period r) (u_pool r) (u_dyn r).
 
@@ -87,15 +90,18 @@ Fixpoint ubi_sum (l : list (Z * urec)) (acc : Z) : outcome Z :=
   | [] => Ok acc
   | (_, r) :: rest =>
       if u_period r =? 0 then Panic "integer divide by zero"
-      else ubi_sum rest (wrap64 (acc + wrap64 (u_amount r * YEAR) / u_period r))
+      else ubi_sum rest (if bigint then acc + u_amount r * YEAR / u_period r
+                         else wrap64 (acc + wrap64 (u_amount r * YEAR) / u_period r))
   end.
 Definition ubi_upsert (hardcap id : Z) (r : urec) (s : ustate) : outcome ustate :=
   match uget (u_pool r) (us_books s) with
   | None => Err "spending pool does not exist"
   | Some _ =>
+      if bigint && (u_period r =? 0) then Err "ubi sum overflows hardcap" else
       do sum <- ubi_sum (us_recs s) 0;
       if u_period r =? 0 then Panic "integer divide by zero" else
-      if hardcap <? wrap64 (sum + wrap64 (u_amount r * YEAR) / u_period r) then Err "ubi sum overflows hardcap" else
+      if hardcap <? (if bigint then sum + u_amount r * YEAR / u_period r
+                     else wrap64 (sum + wrap64 (u_amount r * YEAR) / u_period r)) then Err "ubi sum overflows hardcap" else
       Ok (mkUS (uins id (mkU (u_start r) (u_end r) (u_start r) (u_amount r) (u_period r) (u_pool r) false) (us_recs s))
                (us_books s) (us_minted s))
   end.
